@@ -27,13 +27,13 @@ CLAIMS = {
         note="Decoders written from the shell manuals are the oracle (shells are not executed); str::replace/format! enter through shims with assumed contracts (prelude/strings.rs), rewrite rules R4/R5/R7; pwsh typographic quotes excluded by precondition; runtime use of $literal as glob is out of reach.",
         design="§7 C07", tech="Verus contracts on mechanically extracted functions (postcondition = decoder round trip); bounded twin for replay", cat="proof"),
     "C08": dict(
-        text="Bounded stand-in: a table of planted mistakes of every class in several placements (cycles behind chains / beside unrelated definitions / with tails / several name orders, duplicates per shell, specialisations, words) and clean look-alikes, x 4 shells, compared with the Error variant the real pipeline returns.",
+        text="Kani (on items extracted verbatim each run): is_valid_command_name rejects exactly names containing '/', Shell::from_str accepts exactly bash/fish/zsh/pwsh and returns UnknownShell with the given span otherwise (names <= 4 ASCII bytes: labelled bounded). Bounded stand-in: a table of planted mistakes of every class in several placements (cycles behind chains / beside unrelated definitions / with tails / several name orders, duplicates per shell, specialisations, words) and clean look-alikes, x 4 shells, compared with the Error variant the real pipeline returns.",
         note="Not a proof; the checking functions are not yet under Verus contracts.",
-        design="§7 C08", tech="bounded classification table on the real pipeline (stand-in)", cat="exploration"),
+        design="§7 C08", tech="Kani harnesses on the extracted is_valid_command_name / Shell::from_str (bounded by name length, labelled); bounded classification table on the real pipeline (stand-in)", cat="proof"),
     "C09": dict(
-        text="Bounded stand-in on the real compiled automata of the grammar corpus: no state with two items that read the same word and continue differently; the `||` grammar and its `|` variant match the same word sequences (exact language comparison over item readings). Known finding D10 recorded.",
+        text="Kani, full domain of the extracted enum: Inp equality is structural (merging equal symbols never moves a description or level), and the contract-level statement 'same literal text = one symbol' (fails: known finding D10). Bounded stand-in on the real compiled automata of the grammar corpus: no state with two items that read the same word and continue differently; the `||` grammar and its `|` variant match the same word sequences (exact language comparison over item readings). Known finding D10 recorded.",
         note="Not a proof; bash execution not covered.",
-        design="§7 C09", tech="bounded exact determinism / language comparison on the real automaton (stand-in)", cat="exploration"),
+        design="§7 C09", tech="Kani full-domain harnesses on the extracted symbol type Inp (equality is structural; same-text literals are one symbol: fails = known finding D10); bounded exact determinism / language comparison on the real automaton (stand-in)", cat="proof"),
     "C11": dict(
         text="Exhaustive check over the property's own finite quantifier (3 names x 32 definition subsets x 3 reference positions x 4 shells = 1152 grammars) that the compiled automaton expects exactly the command the lookup order prescribes.",
         note="Finite exhaustive enumeration of the stated quantifier on the real pipeline; get_specializations / specialize_nonterminals not yet under Verus contracts; emitted script bodies not covered.",
